@@ -1,47 +1,72 @@
 """C08 — Randomness discipline: seeded runs repeat; no two samples share random variates (DESIGN.md §4 C08)."""
 from __future__ import annotations
 
-import copy
+import math
 import os
 import warnings
 import numpy as np
 
 from .. import fake_engine as fe
 from .. import rngtrace, zoo
-from ..common import rdl
 
-RULE = ("real pricing runs traced from the harness (every numpy.random / random draw and seed call, every pre-drawn row popped, "
-        "path boundaries; one log per process id): standard engine x {direct Levy process on BS/HEM/Merton, CTMC chain} x "
-        "{fixed-date, jump-time} x {1, 2 processes} x {seed None, 0, 7}; multilevel engine with the real 1-d coupling on scripted "
-        "oracle histories. non-trivial = at least 2 paths and at least one draw; distinct = distinct (engine, process, mode, "
-        "processes, seed, sizes)")
+RULE = ("real pricing runs traced from the harness through the public process API only (every numpy.random / random draw with its "
+        "values, every seed call, pre-computation scopes, path boundaries and the returned path objects; one log per process id; "
+        "the stores of pre-drawn variates are found by VALUE in the object graph whatever their type, name or holder - deque, "
+        "list, ndarray, iterator - and, failing that, the consumption is read off the helper arguments / the returned paths): "
+        "standard engine x {direct Levy process on BS/HEM/Merton, CTMC chain} x {fixed-date, jump-time} x {single date, 2-4 dates: "
+        "spot observed on a date grid, the library's Asian} x {1, 2 processes} x {seed None, 0, 7, drawn}; multilevel engine with the "
+        "real 1-d coupling on scripted oracle histories, single- and multi-date; for every process/engine/mode one multi-date run "
+        "of 250 paths with intensity*dt = 0.55 (interval-dependence oracle). non-trivial = at least 2 paths and at least one draw; "
+        "distinct = distinct (engine, process, mode, dates, processes, seed, sizes)")
 NOT_PROVED = ["OS scheduling, pid*time seed collisions between workers and the statistical quality of MT19937 are not modelled",
               "multi-process runs: proved safe for every schedule in jump-time mode (tokens_disjoint_multiprocess_partial) under the assumption that "
               "workers are in distinct generator states; fixed-date mode is refuted by the copied-deques witness; the chunking of pathos is not modelled",
               "'consumed exactly once' is checked as 'at most once': pre-drawn batches that are replaced unused (engine initialisation, "
-              "next_level) are wasted draws, not shared ones"]
-ASSUMPTIONS = ["distinct worker processes receive pairwise distinct seeds from pid*time (checked on the trace: equal seeds would show as duplicates)"]
-TRUSTED = ["numpy.random / random global generators are deterministic functions of their seed"]
+              "next_level) are wasted draws, not shared ones",
+              "the model tie (Drivers/C08 tokens) is compared on single-date, 1-d runs only and only when every pre-drawn variate could be "
+              "located (otherwise the run is judged by the oracles alone and the evidence notes say which part was unobservable)",
+              "that one pre-drawn jump count feeds one (path, date) only is judged (i) by position in the store when the store is "
+              "observable, (ii) by counting: jump-count variates drawn so far >= (path, date) pairs simulated so far, Brownian variates "
+              ">= paths x dimension x steps, (iii) statistically: over >= 250 paths some path must have a jump in exactly one of the dates 0 and j "
+              "(false-alarm probability < 1e-18 per pair of dates, < 1e-15 per check run, computed from the intensity; seeds drawn from ctx.rng); "
+              "a dependence between dates that keeps (ii) and (iii) - e.g. correlated but not identical counts behind an opaque store - is not seen"]
+ASSUMPTIONS = ["distinct worker processes receive pairwise distinct seeds from pid*time (checked on the trace: equal seeds would show as duplicates)",
+               "whenever numpy.random.poisson is used at all in a run, every jump count of that run is one scalar drawn by it (the counting "
+               "oracle is not armed - and says so in the notes - when no such draw occurs)",
+               "a single jump has a non-zero size (continuous jump sizes; chain states exclude the origin), used for the false-alarm bound only"]
+TRUSTED = ["numpy.random / random global generators are deterministic functions of their seed",
+           "the harness tracer (harness/rngtrace.py): value-based discovery of the stores, logging subclasses of deque/list/ndarray, "
+           "matching of path values to normals up to one scale per date at relative tolerance 1e-11 with >= 3 paths"]
+
+FALSE_ALARM_LOG = math.log(1e-18)       # per pair of dates; at most ~100 armed pairs per check run
+BIG_N, BIG_X = 250, 0.55
 
 
-class _StochasticDates:
-    """payoff with stochastic payoff dates (forces the jump-time simulation mode); value = terminal spot"""
-
-
-def make_product(mode):
+def make_product(mode, dates=1, maturity=1.0, underlying="spot"):
+    from rpylib.grid.time import TimeGrid
     from rpylib.product.payoff import Payoff, PayoffDates, Vanilla, PayoffType
     from rpylib.product.product import Product
-    from rpylib.product.underlying import Spot
+    from rpylib.product.underlying import Spot, Asian, Discretisation
 
     class JumpTimeCall(Payoff):
+        """payoff with stochastic payoff dates (forces the jump-time simulation mode)"""
         def __init__(self):
             super().__init__(payoff_dates_type=PayoffDates.STOCHASTIC)
 
         def evaluate(self, underlying):
             return np.maximum(underlying - 100.0, 0.0)
 
+    class DatedSpot(Spot):
+        """terminal spot of a product observed on a grid of `dates` intervals (public `compute_times_grid`)"""
+        def compute_times_grid(self, maturity):  # noqa (the keyword the library calls it with)
+            return TimeGrid(start=0.0, end=maturity, num=dates + 1)
+
     payoff = Vanilla(strike=100.0, payoff_type=PayoffType.CALL) if mode == "fixed" else JumpTimeCall()
-    return Product(payoff_underlying=Spot(), payoff=payoff, maturity=1.0)
+    if underlying == "asian":        # the library's own multi-date underlying: monthly average, maturity/(1/12) + 1 dates
+        und = Asian(Discretisation.MONTHLY)
+    else:
+        und = Spot() if dates == 1 else DatedSpot()
+    return Product(payoff_underlying=und, payoff=payoff, maturity=maturity)
 
 
 def make_process(kind, rng):
@@ -54,6 +79,14 @@ def make_process(kind, rng):
     model = zoo.make_exp("hem", {})
     grid = zoo.CTMCUniformGrid.create_from_fixed_nb_of_points(h=0.05, nb_of_points=9)
     return MarkovChainProcess(model, SamplingMethod.INVERSION, grid)
+
+
+def make_coupling():
+    from rpylib.process.coupling.couplingmarkovchain import CouplingMarkovChain
+    from rpylib.distribution.sampling import SamplingMethod
+    model = zoo.make_exp("hem", {})
+    grid = zoo.CTMCUniformGrid.create_from_fixed_nb_of_points(h=0.1, nb_of_points=7)
+    return CouplingMarkovChain(model=model, method=SamplingMethod.BINARYSEARCHTREEADAPTED1D, grid=grid)
 
 
 class HandedOutUniforms:
@@ -85,7 +118,7 @@ class HandedOutUniforms:
         return None
 
 
-def run_standard(ctx, kind, mode, n, seed, nproc, tag, reuse=None):
+def run_standard(ctx, kind, mode, n, seed, nproc, tag, reuse=None, dates=1, maturity=1.0, underlying="spot"):
     from rpylib.montecarlo.configuration import ConfigurationStandard
     from rpylib.montecarlo.standard.engine import Engine
     d = ctx.work / f"trace_{tag}"
@@ -98,50 +131,164 @@ def run_standard(ctx, kind, mode, n, seed, nproc, tag, reuse=None):
     with warnings.catch_warnings():
         warnings.simplefilter("ignore")
         with rngtrace.tracing(d), HandedOutUniforms() as hu:
-            stats = engine.price(make_product(mode))
+            stats = engine.price(make_product(mode, dates, maturity, underlying))
     an = rngtrace.analyse(rngtrace.read(d), os.getpid())
     an["uniform_duplicate"] = hu.duplicate() if nproc == 1 else None
     an["engine"] = engine
-    return np.array(stats._payoff_statistics.stats, dtype=float).copy(), an
+    try:            # per-sample payoffs where the statistics object exposes them, else the public summary of the run
+        rows = np.array(stats._payoff_statistics.stats, dtype=float).copy()
+    except AttributeError:
+        note(ctx, "per-sample payoffs not reachable on the statistics object: seeded repeats compared on price() only")
+        rows = np.array(np.ravel(stats.price()), dtype=float).copy()
+    return rows, an
 
 
-def run_mlmc(ctx, hist, L0, N0, level_max, mode, seed, tag):
-    from rpylib.process.coupling.couplingmarkovchain import CouplingMarkovChain
-    from rpylib.distribution.sampling import SamplingMethod
+def run_mlmc(ctx, hist, L0, N0, level_max, mode, seed, tag, dates=1, maturity=1.0):
     d = ctx.work / f"trace_{tag}"
-    model = zoo.make_exp("hem", {})
-    grid = zoo.CTMCUniformGrid.create_from_fixed_nb_of_points(h=0.1, nb_of_points=7)
-    coupling = CouplingMarkovChain(model=model, method=SamplingMethod.BINARYSEARCHTREEADAPTED1D, grid=grid)
+    coupling = make_coupling()
     with warnings.catch_warnings():
         warnings.simplefilter("ignore")
         with np.errstate(all="ignore"):
             with rngtrace.tracing(d), HandedOutUniforms() as hu:
-                r = fe.run_mlmc(hist, L0, N0, level_max, seed=seed, coupling=coupling, product=make_product(mode))
+                r = fe.run_mlmc(hist, L0, N0, level_max, seed=seed, coupling=coupling, product=make_product(mode, dates, maturity))
     rows = [a.copy() for a in (r["final"] or r["reads"][-1])["rows"]] if (r["final"] or r["reads"]) else []
     an = rngtrace.analyse(rngtrace.read(d), os.getpid())
     an["uniform_duplicate"] = hu.duplicate()
     return rows, an
 
 
+def note(ctx, text):
+    seen = ctx.__dict__.setdefault("_c08_notes", {})
+    seen[text] = seen.get(text, 0) + 1
+    if seen[text] == 1:
+        ctx.notes.append("C08 observation: " + text)
+
+
+def count_oracle(ctx, an, nproc):
+    """container-independent: every (path, date) pair needs its own jump-count variate and every (path, dimension, step) its own
+    Brownian variate, and a variate cannot be consumed before it is drawn -> on every prefix of a single-process run (on the totals
+    of a multi-process run) #count variates drawn >= #pairs simulated, #normal variates drawn >= #steps simulated.  -> detail | None"""
+    paths, batches = an["paths"], an["batches"]
+    diffusion = any(p.get("dh") for p in paths)
+    count_fn_used = an["totals"]["count"] > 0
+
+    def need(p):
+        b = batches.get(p.get("batch")) or {}
+        c = b["nb"] if (b.get("lam") or 0) > 0 and b.get("nb") else 0
+        m = (p.get("steps") or 0) * (b.get("dim") or 0) if diffusion else 0
+        return c, m
+
+    if any((batches.get(p.get("batch")) or {}).get("lam") for p in paths) and not count_fn_used:
+        note(ctx, "no variate drawn by a jump-count function (numpy.random.poisson) in a run with jumps: counting oracle for jump counts not armed")
+    if nproc == 1:
+        cnt = nrm = need_c = need_n = done = 0
+        for ev in an["timeline"]:
+            if ev[0] == "draw":
+                cnt += ev[2] if ev[1] in rngtrace._COUNT_FNS else 0
+                nrm += ev[2] if ev[1] in rngtrace._NORMAL_FNS else 0
+            else:
+                c, m = need(paths[ev[1]])
+                need_c, need_n, done = need_c + c, need_n + m, done + 1
+                if count_fn_used and need_c > cnt:
+                    return {"what": "fewer jump-count variates have been drawn than (path, date) pairs simulated: some drawn count feeds "
+                                    "more than one (path, date)", "paths_so_far": done, "pairs_so_far": need_c, "count_variates_drawn_so_far": cnt}
+                if need_n > nrm:
+                    return {"what": "fewer normal variates have been drawn than (path, dimension, step) triples simulated: some Brownian "
+                                    "variate feeds more than one", "paths_so_far": done, "steps_so_far": need_n, "normal_variates_drawn_so_far": nrm}
+        return None
+    need_c = sum(need(p)[0] for p in paths)
+    need_n = sum(need(p)[1] for p in paths)
+    if count_fn_used and need_c > an["totals"]["count"]:
+        return {"what": "fewer jump-count variates drawn in all processes than (path, date) pairs simulated", "pairs": need_c,
+                "count_variates_drawn": an["totals"]["count"]}
+    if need_n > an["totals"]["normal"]:
+        return {"what": "fewer normal variates drawn in all processes than (path, dimension, step) triples simulated", "steps": need_n,
+                "normal_variates_drawn": an["totals"]["normal"]}
+    return None
+
+
+def log_binom_cdf(n, q, d):
+    """log P(Bin(n, q) <= d), exact sum in log space"""
+    terms = [math.lgamma(n + 1) - math.lgamma(k + 1) - math.lgamma(n - k + 1) + k * math.log(q) + (n - k) * math.log1p(-q) for k in range(d + 1)]
+    m = max(terms)
+    return m + math.log(sum(math.exp(t - m) for t in terms))
+
+
+def interval_oracle(ctx, an):
+    """value-level, multi-date runs: whether a path jumps in date j must not be a function of whether it jumps in date 0.  With
+    independent Poisson counts P(no jump in date 0 and exactly one in date j) = q = e^{-x0} xj e^{-xj} (x = intensity * dt), and
+    that event shows as activity (0, 1) in the path handed to the path manager; so the number D of paths (out of n) whose activity
+    differs between the dates 0 and j dominates a Binomial(n, min q).  Exact one-sided test at level 1e-18: a failure iff
+    P(Bin(n, q) <= D observed) < 1e-18; armed (counted) iff D = 0 would fail, i.e. (1 - q)^n < 1e-18."""
+    acc = {}
+    for p in an["paths"]:
+        b = an["batches"].get(p.get("batch")) or {}
+        act, lam, grid = p.get("act"), b.get("lam") or 0.0, b.get("grid")
+        if not act or lam <= 0 or not grid or len(grid) != len(act) + 1:
+            continue
+        dts = np.diff(grid)
+        for j in range(1, len(act)):
+            x0, xj = lam * dts[0], lam * dts[j]
+            a = acc.setdefault((len(act), j), {"q": 1.0, "n": 0, "differ": 0})
+            a["q"] = min(a["q"], math.exp(-x0) * xj * math.exp(-xj))
+            a["n"] += 1
+            a["differ"] += int(act[0] != act[j])
+    armed = 0
+    for (nb, j), a in sorted(acc.items()):
+        if not 0.0 < a["q"] < 1.0 or a["n"] * math.log1p(-a["q"]) >= FALSE_ALARM_LOG:
+            continue
+        armed += 1
+        lp = log_binom_cdf(a["n"], a["q"], a["differ"])
+        if lp < FALSE_ALARM_LOG:
+            return armed, {"what": "the jump activity of date j is (nearly) a function of that of date 0: the paths with a jump in exactly one "
+                                   "of the two dates are fewer than independent jump counts allow (one drawn count feeds several dates)",
+                           "dates": nb, "j": j, "paths": a["n"], "paths_with_different_activity": a["differ"],
+                           "probability_of_so_few_under_independence_at_most": math.exp(lp), "q": a["q"]}
+    return armed, None
+
+
 def oracle(ctx, desc, an, seed, nproc, cls):
     """S on the trace"""
+    for t in an["notes"]:
+        note(ctx, t)
     for p in an["problems"]:
         ctx.fail("oracle", "c08.trace_problem", desc, p, cls=cls)
         return False
-    seen = {}
+    seen, seen_dh = {}, {}
     for i, path in enumerate(an["paths"]):
-        for t in path["tokens"]:
-            key = (t[0], tuple(t[1]) if isinstance(t[1], (list, tuple)) else t[1], t[2])
+        fly = path["tokens"][:path["fly"]]
+        keys = [(t[0], tuple(t[1]) if isinstance(t[1], (list, tuple)) else t[1], t[2]) for t in path["tokens"]]
+        # a variate met twice inside one path through two observation channels is one consumption; two on-the-fly draws of one
+        # path are two
+        for key in keys[:len(fly)] + sorted(set(keys[len(fly):]), key=str):
             if key in seen:
                 ctx.fail("oracle", "c08.shared_variate", desc,
                          {"what": "two samples (or one sample twice) consumed the same random variate", "token": list(map(str, key)),
                           "sample_a": seen[key], "sample_b": i, "pids": sorted({p["pid"] for p in an["paths"]})}, cls=cls)
                 return False
             seen[key] = i
+        dh = path.get("dh")
+        if dh is not None:
+            if dh in seen_dh:
+                ctx.fail("oracle", "c08.shared_variate", desc,
+                         {"what": "two samples of one run have bit-identical non-zero diffusion components: they were built from the same "
+                                  "Brownian variates", "sample_a": seen_dh[dh], "sample_b": i, "pids": sorted({p["pid"] for p in an["paths"]})}, cls=cls)
+                return False
+            seen_dh[dh] = i
     if an.get("uniform_duplicate"):
         ctx.fail("oracle", "c08.shared_variate", desc,
                  dict(an["uniform_duplicate"], what="the library's uniform variate class handed out the same value twice in one run "
                                                     "(a buffered, cached or copied variate is consumed more than once)"), cls=cls)
+        return False
+    bad_count = count_oracle(ctx, an, nproc)            # two independent oracles: both are evaluated and reported
+    if bad_count:
+        ctx.fail("oracle", "c08.variate_count", desc, bad_count, cls=cls)
+    armed, bad = interval_oracle(ctx, an)
+    if armed:
+        ctx.branches["c08.run:interval_oracle_armed"] += 1
+    if bad:
+        ctx.fail("oracle", "c08.interval_dependence", desc, bad, cls=cls)
+    if bad_count or bad:
         return False
     if nproc == 1:
         for pid, lib, s, before in an["seeds"]:
@@ -155,6 +302,9 @@ def oracle(ctx, desc, an, seed, nproc, cls):
             if vals != {("np", seed), ("py", seed)}:
                 ctx.fail("oracle", "c08.seed_not_applied", desc, {"what": "configured seed not applied to both generators exactly", "seeds": sorted(map(str, vals))}, cls=cls)
                 return False
+    for ch, k in an["channels"].items():
+        if k:
+            ctx.branches[f"c08.run:observed_via_{ch}"] += 1
     return True
 
 
@@ -162,6 +312,9 @@ def correspondence(ctx, desc, an, seed, cls):
     """C: consumption tokens of a single-process numpy-only run vs the model (units = scalars: 1 date, 1 dimension)"""
     passes = an["passes"]
     if not passes or any(p.get("unit", (1, 1)) != (1, 1) for p in passes):
+        return
+    if not an["exact"] or an["outside"]:
+        note(ctx, "model tie skipped for a run whose pre-drawn variates could not all be located")
         return
     if any(t[0] != "np" for path in an["paths"] for t in path["tokens"]):
         return
@@ -178,30 +331,36 @@ def correspondence(ctx, desc, an, seed, cls):
                                                    "impl": impl[:40], "model": model[:40]}, cls=cls)
 
 
-def standard_case(ctx, kind, mode, n, seed, nproc):
+def standard_case(ctx, kind, mode, n, seed, nproc, dates=1, maturity=1.0, underlying="spot", repeats=2):
     desc = dict(engine="standard", process=kind, mode=mode, n=n, seed=seed, nproc=nproc)
-    cls = dict(engine="standard", mode=mode, multiprocess=nproc > 1)
+    if dates != 1 or underlying != "spot" or maturity != 1.0:
+        desc.update(dates=dates, maturity=maturity, underlying=underlying)
+    cls = dict(engine="standard", mode=mode, multiprocess=nproc > 1, multidate=dates > 1 or underlying != "spot")
+    kw = dict(dates=dates, maturity=maturity, underlying=underlying)
     try:
-        rows, an = run_standard(ctx, kind, mode, n, seed, nproc, "a")
+        rows, an = run_standard(ctx, kind, mode, n, seed, nproc, "a", **kw)
     except Exception as e:
         ctx.fail("oracle", "c08.engine_raises", desc, {"what": f"{type(e).__name__}: {e}"}, cls=cls)
         return
-    ctx.count("c08.run", desc, nontrivial=n >= 2, branch=f"std:{kind}:{mode}:p{nproc}:{'seed' if seed is not None else 'noseed'}")
+    multi = "multi" if (dates > 1 or underlying != "spot") else "single"
+    ctx.count("c08.run", desc, nontrivial=n >= 2, branch=f"std:{kind}:{mode}:{multi}:p{nproc}:{'seed' if seed is not None else 'noseed'}")
     if not oracle(ctx, desc, an, seed, nproc, cls):
         return
     if nproc == 1:
         correspondence(ctx, desc, an, seed, cls)
-        if seed is not None:
+        if seed is not None and repeats >= 1:
             np.random.seed(None)
             np.random.normal(size=ctx.rng.randint(1, 40))           # the ambient generator state differs between the runs
-            rows2, _ = run_standard(ctx, kind, mode, n, seed, nproc, "b")
+            rows2, _ = run_standard(ctx, kind, mode, n, seed, nproc, "b", **kw)
             if rows.tobytes() != rows2.tobytes():
                 ctx.fail("oracle", "c08.seeded_repeat", desc, {"what": "two single-process runs with the same seed differ",
                                                                "first": rows.ravel()[:4].tolist(), "second": rows2.ravel()[:4].tolist()}, cls=cls)
                 return
+            if repeats < 2:
+                return
             # the same engine, process and sampler objects priced a second time with the same seed
             np.random.normal(size=ctx.rng.randint(1, 40))
-            rows3, an3 = run_standard(ctx, kind, mode, n, seed, nproc, "c", reuse=an["engine"])
+            rows3, an3 = run_standard(ctx, kind, mode, n, seed, nproc, "c", reuse=an["engine"], **kw)
             ctx.branches["c08.run:same_objects_again"] += 1
             if rows.tobytes() != rows3.tobytes():
                 ctx.fail("oracle", "c08.seeded_repeat", desc, {"what": "a second seeded run on the same engine and process objects differs from the first",
@@ -210,25 +369,32 @@ def standard_case(ctx, kind, mode, n, seed, nproc):
             oracle(ctx, desc, an3, seed, nproc, cls)
 
 
-def mlmc_case(ctx, hist, L0, N0, level_max, mode, seed):
+def mlmc_case(ctx, hist, L0, N0, level_max, mode, seed, dates=1, maturity=1.0, repeat=True):
     desc = dict(engine="mlmc", mode=mode, L0=L0, N0=N0, level_max=level_max, seed=seed,
                 history=[[list(a), bool(b), list(c)] for a, b, c in hist])
-    cls = dict(engine="mlmc", mode=mode, multiprocess=False)
+    if dates != 1 or maturity != 1.0:
+        desc.update(dates=dates, maturity=maturity)
+    cls = dict(engine="mlmc", mode=mode, multiprocess=False, multidate=dates > 1)
     try:
-        rows, an = run_mlmc(ctx, hist, L0, N0, level_max, mode, seed, "a")
+        rows, an = run_mlmc(ctx, hist, L0, N0, level_max, mode, seed, "a", dates, maturity)
     except Exception as e:
         ctx.fail("oracle", "c08.engine_raises", desc, {"what": f"{type(e).__name__}: {e}"}, cls=cls)
         return
-    ctx.count("c08.run", desc, nontrivial=True, branch=f"mlmc:{mode}:{'seed' if seed is not None else 'noseed'}")
+    ctx.count("c08.run", desc, nontrivial=True, branch=f"mlmc:{mode}:{'multi' if dates > 1 else 'single'}:{'seed' if seed is not None else 'noseed'}")
     if not oracle(ctx, desc, an, seed, 1, cls):
         return
     correspondence(ctx, desc, an, seed, cls)
-    if seed is not None:
+    if seed is not None and repeat:
         np.random.seed(None)
         np.random.normal(size=ctx.rng.randint(1, 40))
-        rows2, _ = run_mlmc(ctx, hist, L0, N0, level_max, mode, seed, "b")
+        rows2, _ = run_mlmc(ctx, hist, L0, N0, level_max, mode, seed, "b", dates, maturity)
         if len(rows) != len(rows2) or any(a.tobytes() != b.tobytes() for a, b in zip(rows, rows2)):
             ctx.fail("oracle", "c08.seeded_repeat", desc, {"what": "two single-process multilevel runs with the same seed differ"}, cls=cls)
+
+
+def dated_maturity(intensity, dates, x=BIG_X):
+    """maturity such that intensity * dt = x on a uniform grid of `dates` intervals"""
+    return round(dates * x / intensity, 6)
 
 
 def run(ctx):
@@ -239,10 +405,26 @@ def run(ctx):
                 standard_case(ctx, kind, mode, rng.choice([2, 3, 5, 8]), seed, 1)
     for _ in range(ctx.n(10, 40)):
         standard_case(ctx, rng.choice(["hem", "merton", "ctmc", "ctmc", "bs"]), rng.choice(["fixed", "jump"]), rng.randint(2, 12), rng.choice([None, 3, 11]), 1)
+    # multi-date products (several pre-drawn variates per path and per store row), every process x mode
+    intensity = {k: float(make_process(k, rng).intensity()) for k in ("hem", "merton", "ctmc")}
+    for kind in ("bs", "hem", "merton", "ctmc"):
+        for mode in ("fixed", "jump"):
+            dates = rng.choice([2, 3, 4])
+            standard_case(ctx, kind, mode, rng.randint(3, 9), rng.choice([None, rng.randrange(1, 10 ** 6)]), 1, dates=dates,
+                          maturity=rng.choice([0.5, 1.0, 2.0]), repeats=1)
+    for kind in rng.sample(["bs", "hem", "merton", "ctmc"], ctx.n(2, 4)):
+        standard_case(ctx, kind, "fixed", rng.randint(3, 6), rng.randrange(1, 10 ** 6), 1, maturity=0.26, underlying="asian", repeats=1)
+    # ... with enough paths and intensity * dt = 0.55 for the interval-dependence oracle (seeds from ctx.rng)
+    for kind in ("hem", "merton", "ctmc"):
+        for mode in ("fixed", "jump"):
+            dates = rng.choice([2, 3])
+            standard_case(ctx, kind, mode, BIG_N, rng.randrange(1, 10 ** 6), 1, dates=dates, maturity=dated_maturity(intensity[kind], dates),
+                          repeats=1 if ctx.thorough else 0)
     # multi-process
     for mode in ("fixed", "jump"):
         for nproc in ((2,) if not ctx.thorough else (2, 4)):
             standard_case(ctx, "hem", mode, 6, None, nproc)
+            standard_case(ctx, "hem", mode, 6, None, nproc, dates=3, maturity=1.0)
     # multilevel engine, real coupling
     hists = [
         (0, 2, 2, [([2], False, [2, 2]), ([3, 2], False, [3, 2, 2]), ([0] * 8, True, [0] * 8)]),
@@ -256,11 +438,21 @@ def run(ctx):
         for mode in ("fixed", "jump"):
             for seed in (None, 5):
                 mlmc_case(ctx, h, L0, N0, lm, mode, seed)
+    lam0 = float(make_coupling().fine_process.intensity())
+    for L0, N0, lm, h in (hists[1], hists[3]):
+        for mode in ("fixed", "jump"):
+            mlmc_case(ctx, h, L0, N0, lm, mode, rng.choice([None, rng.randrange(1, 10 ** 6)]), dates=rng.choice([2, 3]), maturity=1.0)
+    for mode in ("fixed", "jump"):
+        dates = rng.choice([2, 3])
+        mlmc_case(ctx, [([BIG_N, BIG_N], True, [])], 1, BIG_N, 1, mode, rng.randrange(1, 10 ** 6), dates=dates, maturity=dated_maturity(lam0, dates),
+                  repeat=ctx.thorough)
 
 
 def replay(ctx, rec):
     d = rec["input"]
     if d["engine"] == "standard":
-        standard_case(ctx, d["process"], d["mode"], d["n"], d["seed"], d["nproc"])
+        standard_case(ctx, d["process"], d["mode"], d["n"], d["seed"], d["nproc"], dates=d.get("dates", 1), maturity=d.get("maturity", 1.0),
+                      underlying=d.get("underlying", "spot"), repeats=0 if d["n"] >= BIG_N else 2)
     else:
-        mlmc_case(ctx, [(a, b, c) for a, b, c in d["history"]], d["L0"], d["N0"], d["level_max"], d["mode"], d["seed"])
+        mlmc_case(ctx, [(a, b, c) for a, b, c in d["history"]], d["L0"], d["N0"], d["level_max"], d["mode"], d["seed"],
+                  dates=d.get("dates", 1), maturity=d.get("maturity", 1.0))
